@@ -90,6 +90,10 @@ def oracle(ctx):
             return rnd.choice(['" ' + v + ' "', '"' + v + '"', v + '\\t', '\\x20' + v, '"\\t' + v + '"', "' " + v + "'", v + '\\s'])
         deco = [spell(v) for v in vals]
         cases.append((vals, deco))
+    # one assignment is one value, whatever is inside it: interior white space does not make it a list of ports
+    for multi in ('80 90', '8080 9090', '80\t443', '8080 90x0/tcp', '1-2 3-4/udp', '80  81'):
+        for before in ([], ['53/udp']):
+            cases.append((before + [multi], before + [multi]))
     # the options of the container are its own whatever company it keeps: a third of the cases are members of a pod of the same run
     in_pod = [rnd.random() < 0.33 for _ in cases]
     ops = [(f'convert\t0\t0\t{hx("/q/c.container")}\t{hx(container(d))}' if not pod else
